@@ -149,6 +149,7 @@ def _apply_model(interp, self, args, kwargs):
     if k == 1:
         r = FAIL_INFO.make(interp, 'apply()')
         st.ghost['status'] = interp.call(expected_status, ['returned', r], {})
+        st.assume(interp.truth(interp.call(can_report, [self, st.ghost['status']], {})))
         st.emit('apply:returned', self, r)
         return r
     exc = _mk_hard_error(interp, self) if k == 2 else _mk_arbitrary(interp, self)
@@ -160,9 +161,23 @@ def _apply_model(interp, self, args, kwargs):
 class ExecutorI(Interface):
     """ControlledInstructionExecutor: `apply` may succeed (None), report a failure, raise
     HardErrorException or raise anything else -- the environment the property quantifies over.
-    The 14 concrete executor classes are proved to return None / a failure info (layer 2)."""
+    The 14 concrete executor classes are proved to return None / a failure info (layer 2).
+    reports_validation_error / reports_fail: whether a *reported* failure may be of that kind
+    (a hard error may always be reported or raised, anything may be raised)."""
     target_class = ControlledInstructionExecutor
+    attrs = {'reports_validation_error': Bool, 'reports_fail': Bool}
     methods = {'apply': Method(model=_apply_model)}
+
+
+def can_report(executor, status):
+    """`status` is a kind of failure that a step run with this executor can end with"""
+    if status is ExecutionFailureStatus.HARD_ERROR or status is ExecutionFailureStatus.INTERNAL_ERROR:
+        return True
+    if status is ExecutionFailureStatus.VALIDATION_ERROR:
+        return executor.reports_validation_error if is_opaque(executor) else 'VALIDATION_ERROR' in REPORTS[type(executor)]
+    if status is ExecutionFailureStatus.FAIL:
+        return executor.reports_fail if is_opaque(executor) else 'FAIL' in REPORTS[type(executor)]
+    return False
 
 
 def _monitor_start(elements_of):
@@ -254,6 +269,8 @@ M.contract(P_PSE + ':execute_phase_prim',
                result is not None or all_instructions_applied(phase_contents, ghost),
                'failure: of the first failing instruction, nothing applied after it': lambda result, ghost:
                result is None or stopped_at_failure(ghost, result.status),
+               'failure: of a kind the executor can report': lambda result, instruction_executor:
+               result is None or can_report(instruction_executor, result.status),
                'failure: at an instruction element': lambda result, ghost, phase_contents:
                result is None or (0 <= ghost['last'] and ghost['last'] < len(phase_contents.elements)
                                   and is_instruction(phase_contents.elements[ghost['last']])),
@@ -270,10 +287,18 @@ M.loop(P_PSE + ':execute_phase_prim', 0,
        modifies=dict(element='local', instruction_info='local', failure_info='local', **MONITOR_FRAME))
 
 
-def instruction_failure_shape(step):
+def statuses_of(executor):
+    """the kinds of failure a step run with this executor can end with (all, for an executor we know nothing of)"""
+    if type(executor) in REPORTS:
+        return [m for m in ExecutionFailureStatus
+                if m.name in REPORTS[type(executor)] + ('HARD_ERROR', 'INTERNAL_ERROR')]
+    return list(ExecutionFailureStatus)
+
+
+def instruction_failure_shape(step, statuses=tuple(ExecutionFailureStatus)):
     """PhaseStepFailure of an instruction step, as callers see it: carries the step it was given"""
     return Inst(PhaseStepFailure,
-                _PhaseStepFailure__status=EnumOf(ExecutionFailureStatus),
+                _PhaseStepFailure__status=OneOf(*statuses),
                 _PhaseStepFailure__failure_info=Inst(InstructionFailureInfo,
                                                      _FailureInfo__phase_step=Const(step),
                                                      _FailureInfo__failure_details=Any_,
@@ -291,21 +316,26 @@ M.contract(P_PSE + ':execute_phase',
            setup=_monitor_start(lambda args: args['phase_contents']._elements),
            modifies=MONITOR_FRAME,
            returns=Dependent(lambda interp, name, env:
-                             Opt(instruction_failure_shape(env['phase_step'])).make(interp, name)),
+                             Opt(instruction_failure_shape(env['phase_step'],
+                                                           statuses_of(env['instruction_executor']))).make(interp, name)),
            ensures={
                'None: every instruction applied, in file order, all succeeded': lambda result, ghost, phase_contents:
                result is not None or all_instructions_applied(phase_contents, ghost),
                'failure: of the first failing instruction, nothing applied after it': lambda result, ghost:
                result is None or stopped_at_failure(ghost, result.status),
+               'failure: of a kind the executor can report': lambda result, instruction_executor:
+               result is None or can_report(instruction_executor, result.status),
                'failure names the step': lambda result, phase_step:
                result is None or result.failure_info.phase_step is phase_step,
            },
            raises_only=())
 
 
-def step_failure_exception_shape(failure_shape_of_step, step_param='step'):
+def step_failure_exception_shape():
     return Dependent(lambda interp, name, env:
-                     Inst(PhaseStepFailureException, failure=failure_shape_of_step(env[step_param])).make(interp, name))
+                     Inst(PhaseStepFailureException,
+                          failure=instruction_failure_shape(env['step'], statuses_of(env['instruction_executor']))
+                          ).make(interp, name))
 
 
 M.contract(P_PSE + ':run_instructions_phase_step',
@@ -318,9 +348,10 @@ M.contract(P_PSE + ':run_instructions_phase_step',
                all_instructions_applied(phase_contents, ghost),
            },
            raises={PhaseStepFailureException: {
-               'shape': step_failure_exception_shape(instruction_failure_shape),
-               'ensures': lambda exc, step, ghost:
-               stopped_at_failure(ghost, exc.failure.status) and exc.failure.failure_info.phase_step is step}},
+               'shape': step_failure_exception_shape(),
+               'ensures': lambda exc, step, ghost, instruction_executor:
+               stopped_at_failure(ghost, exc.failure.status) and exc.failure.failure_info.phase_step is step
+               and can_report(instruction_executor, exc.failure.status)}},
            raises_only=())
 
 # ====================================================================================== layers 3 and 4: _PartialExecutor
@@ -394,6 +425,36 @@ def kind_of_raised(exc):
 
 
 RAISES = (_mk_hard_error, _mk_arbitrary)
+
+# what an instruction can *report* through each executor class (proved of each `apply`, layer 2)
+_SVH_KINDS, _SH_KINDS, _PFH_KINDS = ('VALIDATION_ERROR', 'HARD_ERROR'), ('HARD_ERROR',), ('FAIL', 'HARD_ERROR')
+REPORTS = {
+    psx.ConfigurationMainExecutor: _SVH_KINDS,
+    psx.SetupValidatePreSdsExecutor: _SVH_KINDS, psx.BeforeAssertValidatePreSdsExecutor: _SVH_KINDS,
+    psx.AssertValidatePreSdsExecutor: _SVH_KINDS, psx.CleanupValidatePreSdsExecutor: _SVH_KINDS,
+    psx.SetupValidatePostSetupExecutor: _SVH_KINDS, psx.BeforeAssertValidatePostSetupExecutor: _SVH_KINDS,
+    psx.AssertValidatePostSetupExecutor: _SVH_KINDS,
+    psx.SetupMainExecutor: _SH_KINDS, psx.BeforeAssertMainExecutor: _SH_KINDS, psx.CleanupMainExecutor: _SH_KINDS,
+    psx.AssertMainExecutor: _PFH_KINDS,
+}
+_RAISED_KINDS = ('HARD_ERROR', 'INTERNAL_ERROR')
+# "that step's kind of failure": the kinds each step can end with
+KINDS_OF_STEP = {
+    S.CONFIGURATION__MAIN: _SVH_KINDS + _RAISED_KINDS,
+    S.ACT__PARSE: ('SYNTAX_ERROR',) + _RAISED_KINDS,
+    S.ACT__VALIDATE_SYMBOLS: ('VALIDATION_ERROR',) + _RAISED_KINDS,
+    S.ACT__VALIDATE_PRE_SDS: _SVH_KINDS + _RAISED_KINDS, S.ACT__VALIDATE_POST_SETUP: _SVH_KINDS + _RAISED_KINDS,
+    S.ACT__VALIDATE_EXE_INPUT: _RAISED_KINDS, S.ACT__PREPARE: _RAISED_KINDS, S.ACT__EXECUTE: _RAISED_KINDS,
+    S.SETUP__MAIN: _RAISED_KINDS, S.BEFORE_ASSERT__MAIN: _RAISED_KINDS, S.CLEANUP__MAIN: _RAISED_KINDS,
+    S.ASSERT__MAIN: _PFH_KINDS + _RAISED_KINDS,
+}
+for _s in (S.SETUP__VALIDATE_SYMBOLS, S.BEFORE_ASSERT__VALIDATE_SYMBOLS, S.ASSERT__VALIDATE_SYMBOLS,
+           S.CLEANUP__VALIDATE_SYMBOLS):
+    KINDS_OF_STEP[_s] = ('VALIDATION_ERROR',) + _RAISED_KINDS
+for _s in (S.SETUP__VALIDATE_PRE_SDS, S.BEFORE_ASSERT__VALIDATE_PRE_SDS, S.ASSERT__VALIDATE_PRE_SDS,
+           S.CLEANUP__VALIDATE_PRE_SDS, S.SETUP__VALIDATE_POST_SETUP, S.BEFORE_ASSERT__VALIDATE_POST_SETUP,
+           S.ASSERT__VALIDATE_POST_SETUP):
+    KINDS_OF_STEP[_s] = _SVH_KINDS + _RAISED_KINDS
 
 
 # ----- environment objects (opaque; what they are is C04 / C11's subject)
@@ -532,7 +593,7 @@ def _mk_partial_executor(stage):
 
 def act_failure_shape(step):
     return Inst(PhaseStepFailure,
-                _PhaseStepFailure__status=EnumOf(ExecutionFailureStatus),
+                _PhaseStepFailure__status=OneOf(*[m for m in ExecutionFailureStatus if m.name in KINDS_OF_STEP[step]]),
                 _PhaseStepFailure__failure_info=Inst(ActPhaseFailureInfo,
                                                      _FailureInfo__phase_step=Const(step),
                                                      _FailureInfo__failure_details=Any_,
@@ -600,10 +661,13 @@ def _instruction_step_contract(method, step, executor_class, phase_attr, stage):
                old=lambda self: result_state(self),
                ensures=ensures,
                raises={PhaseStepFailureException: {
-                   'shape': Inst(PhaseStepFailureException, failure=instruction_failure_shape(step)),
+                   'shape': Inst(PhaseStepFailureException,
+                                 failure=instruction_failure_shape(step, [m for m in ExecutionFailureStatus
+                                                                          if m.name in KINDS_OF_STEP[step]])),
                    'ensures': lambda self, exc, old, trace:
                    same_step(self, trace) and run_steps(trace)[1][0] == 'run-step:raised'
                    and exc is run_steps(trace)[1][2] and exc.failure.failure_info.phase_step is step
+                   and exc.failure.status.name in KINDS_OF_STEP[step]
                    and keeps_result_state(self, old)}},
                raises_only=())
 
@@ -730,6 +794,7 @@ def _atc_step_contract(method, step, event, kind_of_result, stage):
                    'ensures': lambda self, exc, old, trace:
                    len(calls_of(trace, event)) == 1 and calls_of(trace, event)[0][1] is the_atc_of(self, method)
                    and exc.failure.status.name == failure_kind_of_call(trace, event, kind_of_result)
+                   and exc.failure.status.name in KINDS_OF_STEP[step]
                    and exc.failure.failure_info.phase_step is step
                    and keeps_result_state(self, old)}},
                raises_only=())
@@ -755,6 +820,7 @@ M.contract(P_EX + ':_PartialExecutor._act__execute', params=dict(self=_mk_partia
                'ensures': lambda self, exc, old, trace:
                len(calls_of(trace, 'atc-execute')) == 1
                and exc.failure.status.name == failure_kind_of_call(trace, 'atc-execute', eh_kind)
+               and exc.failure.status.name in KINDS_OF_STEP[S.ACT__EXECUTE]
                and exc.failure.failure_info.phase_step is S.ACT__EXECUTE
                and keeps_result_state(self, old)}},
            raises_only=())
@@ -824,14 +890,19 @@ M.contract(P_AH + ':ActHelper.parse', params=dict(self=ACT_HELPER, actor=Iface(A
                and exc.failure.status.name == ('SYNTAX_ERROR' if isinstance(outcome_event(trace, 'actor.parse')[1],
                                                                             ParseException)
                                                else kind_of_raised(outcome_event(trace, 'actor.parse')[1]))
+               and exc.failure.status.name in KINDS_OF_STEP[S.ACT__PARSE]
                and exc.failure.failure_info.phase_step is S.ACT__PARSE}},
            raises_only=())
 
 # owned by C08 (stand-in): checking the symbol usages of one instruction against the symbol table
 M.contract('exactly_lib.execution.impl.symbol_validation:validate_symbol_usages', trusted=True,
-           params=dict(symbol_usages=Any_, symbols=Iface(SymbolTableI)), returns=Opt(FAIL_INFO),
+           params=dict(symbol_usages=Any_, symbols=Iface(SymbolTableI)),
+           returns=Opt(Inst(PartialInstructionControlledFailureInfo,
+                            _tuple=[Const(PartialControlledFailureEnum.VALIDATION_ERROR), Any_])),
            event='validate_symbol_usages')
-M.trust('stand-in for the contract owned by C08: validate_symbol_usages returns None or a failure info and does not raise')
+M.trust('stand-in for the contract owned by C08: validate_symbol_usages returns None or a VALIDATION_ERROR failure info '
+        'and does not raise')
+REPORTS[psv.ValidateSymbolsExecutor] = ('VALIDATION_ERROR',)
 
 
 def _mk_symbols_validator(interp, name):
@@ -861,6 +932,7 @@ M.contract(P_SV + ':SymbolsValidator._validate_atc', params=dict(self=SYMBOLS_VA
                'ensures': lambda self, exc, trace:
                calls_of(trace, 'atc.symbol_usages') == [('atc.symbol_usages', self._action_to_check, ())]
                and exc.failure.failure_info.phase_step is S.ACT__VALIDATE_SYMBOLS
+               and exc.failure.status.name in KINDS_OF_STEP[S.ACT__VALIDATE_SYMBOLS]
                and exc.failure.status.name == (
                    kind_of_raised(outcome_event(trace, 'atc.symbol_usages')[1])
                    if outcome_event(trace, 'atc.symbol_usages')[0] == 'raised'
@@ -988,6 +1060,16 @@ def atc_outcome_iff_executed(result, steps):
     return failed(ae[0]) or result.action_to_check_outcome is not None
 
 
+def failure_is_of_the_kind_of_its_step(result):
+    return result.status is None or result.status.name in KINDS_OF_STEP[result.failure_info.phase_step]
+
+
+def complete_execution_has_atc_outcome(result):
+    """success or assertion failure (the verdicts PASS, FAIL, XPASS, XFAIL of C02): the action to check was executed"""
+    return not (result.status is None or result.status is ExecutionFailureStatus.FAIL) \
+        or result.action_to_check_outcome is not None
+
+
 PROTOCOL = {
     'order: steps run in the documented order (all validation before the sandbox and any main step)':
         lambda trace: in_documented_order(steps_of(trace)),
@@ -1004,6 +1086,10 @@ PROTOCOL = {
     result.sds is self._sds and result.has_sds == sandbox_exists(steps_of(trace)),
     'outcome: has the outcome of the action to check if it was executed, none if execution was not reached':
         lambda result, trace: atc_outcome_iff_executed(result, steps_of(trace)),
+    "outcome: the kind of failure is one of the named step's kinds (FAIL only from assert/main)":
+        lambda result: failure_is_of_the_kind_of_its_step(result),
+    'outcome: success and assertion failure come with the outcome of the action to check':
+        lambda result: complete_execution_has_atc_outcome(result),
 }
 
 M.contract(P_EX + ':_PartialExecutor.execute', params=dict(self=_mk_partial_executor('initial')), inline=True,
@@ -1110,6 +1196,8 @@ def _executor_contract(cls, fields, iface, method, kind_of_result, expected_args
                    'None iff the instruction succeeded, else the kind of its failure': lambda result, trace:
                    (result is None and kind_of_result(outcome_event(trace, event)[1]) is None)
                    or (result is not None and result.status.name == kind_of_result(outcome_event(trace, event)[1])),
+                   'reports only the kinds listed for the class': lambda result:
+                   result is None or result.status.name in REPORTS[cls],
                },
                raises={HardErrorException: {'ensures': lambda self, instruction, exc, trace:
                calls_exactly(self, instruction, trace) and outcome_event(trace, event) == ('raised', exc)},
@@ -1142,3 +1230,170 @@ M.contract(P_SV + ':ValidateSymbolsExecutor.apply',
                     'gives its verdict': lambda result, trace: result is outcome_event(trace, 'validate_symbol_usages')[1]},
            raises={HardErrorException: {}, ArbitraryException: {}},
            raises_only=())
+
+
+# ====================================================================================== helpers of the protocol
+
+M.contract(P_EX + ':_PartialExecutor._final_failure_result_from',
+           params=dict(self=_mk_partial_executor('post-sds'), failure=instruction_failure_shape(S.SETUP__MAIN)),
+           inline=True,
+           ensures={'the failure, the sandbox, the outcome of the action to check': lambda self, failure, result:
+           type(result) is PartialExeResult and result.status is failure.status
+           and result.failure_info is failure.failure_info and result.sds is self._sds
+           and result.action_to_check_outcome is self._action_to_check_outcome},
+           raises_only=())
+
+M.contract(P_EX + ':_PartialExecutor._final_pass_result', params=dict(self=_mk_partial_executor('post-sds')),
+           inline=True,
+           ensures={'success, the sandbox, the outcome of the action to check': lambda self, result:
+           type(result) is PartialExeResult and result.status is None and result.failure_info is None
+           and result.sds is self._sds and result.action_to_check_outcome is self._action_to_check_outcome},
+           raises_only=())
+
+
+class StepActionI(Interface):
+    """a step method as `_sequence_with_cleanup` sees it: returns, or raises PhaseStepFailureException
+    (nothing else: `raises_only` of every step method)"""
+    methods = {'__call__': Method(returns=Any_, may_raise=(_mk_psfe,), event='action')}
+
+
+def _action_events(trace):
+    return [e for e in trace if e[0] in ('action', '_cleanup_main')]
+
+
+def _raised(trace):
+    return [e for e in trace if e[0].endswith(':raised')]
+
+
+M.contract(P_EX + ':_PartialExecutor._sequence_with_cleanup',
+           params=dict(self=_mk_partial_executor('post-sds'), previous_phase=EnumOf(PreviousPhase),
+                       actions=FixedList(Iface(StepActionI), Iface(StepActionI), Iface(StepActionI))), inline=True,
+           ensures={'all actions, in order, no cleanup': lambda actions, trace:
+           [(e[0], e[1]) for e in _action_events(trace)] == [('action', a) for a in actions] and _raised(trace) == []},
+           raises={PhaseStepFailureException: {'ensures': lambda self, previous_phase, actions, exc, trace:
+           # the actions in order up to the first that fails, then cleanup (told the previous phase), nothing else
+           [e[1] for e in _action_events(trace)[:-1]] == actions[:len(_action_events(trace)) - 1]
+           and _action_events(trace)[-1][0] == '_cleanup_main'
+           and _action_events(trace)[-1][1]['previous_phase'] is previous_phase
+           and _raised(trace)[0][0] == 'action:raised'
+           and _raised(trace)[0] is [e for e in trace if e[0].startswith('action:')][-1]
+           # the failure of the action, unless cleanup fails
+           and exc is _raised(trace)[-1][2]}},
+           raises_only=())
+
+M.contract(P_EX + ':_PartialExecutor._finish_with_cleanup_phase',
+           params=dict(self=_mk_partial_executor('act'), previous_phase=EnumOf(PreviousPhase),
+                       failure_from_previous_step=Opt(instruction_failure_shape(S.ASSERT__MAIN))), inline=True,
+           ensures={
+               'cleanup exactly once, told the previous phase': lambda previous_phase, trace:
+               len(calls_of(trace, '_cleanup_main')) == 1
+               and calls_of(trace, '_cleanup_main')[0][1]['previous_phase'] is previous_phase
+               and len(trace) == 2,
+               'failure of cleanup, else the given failure, else success':
+                   lambda self, failure_from_previous_step, result, trace:
+                   (result.status is trace[1][2].failure.status and result.failure_info is trace[1][2].failure.failure_info)
+                   if trace[1][0] == '_cleanup_main:raised' else
+                   ((result.status is None and result.failure_info is None) if failure_from_previous_step is None else
+                    (result.status is failure_from_previous_step.status
+                     and result.failure_info is failure_from_previous_step.failure_info)),
+           },
+           raises_only=())
+
+M.contract(P_EX + ':_PartialExecutor._continue_from_before_assert', params=dict(self=_mk_partial_executor('act')),
+           inline=True,
+           ensures={
+               'before-assert, assert unless that failed, cleanup told the phase that ran last': lambda trace:
+               [(s[0], s[1][1].get('previous_phase')) for s in steps_of(trace)] in (
+                   [(S.BEFORE_ASSERT__MAIN, None), (S.CLEANUP__MAIN, PreviousPhase.BEFORE_ASSERT)],
+                   [(S.BEFORE_ASSERT__MAIN, None), (S.ASSERT__MAIN, None), (S.CLEANUP__MAIN, PreviousPhase.ASSERT)])
+               and halts_at_first_failure(steps_of(trace))
+               and (failed(steps_of(trace)[0]) or len(steps_of(trace)) == 3),
+               'outcome: success iff no step failed, else the earliest failure or the failure of cleanup':
+                   lambda result, trace: outcome_is_earliest_failure_or_cleanup_failure(result, steps_of(trace)),
+           },
+           raises_only=())
+
+
+
+class EnvironI(Interface):
+    """the mapping of environment variables: only copied (dict(environ))"""
+    methods = {'__dict_copy__': Method(returns=Any_)}
+
+
+class MkSettingsHandlerI(Interface):
+    methods = {'__call__': Method(returns=Iface(SettingsHandlerI))}
+
+
+def _mk_configuration(interp, name):
+    exe_conf = Inst(ExecutionConfiguration,
+                    _tuple=[Opt(Iface(EnvironI)), Any_, Iface(SymbolTableI), Opt(Any_), Any_, Int, Any_,
+                            Opt(Int)]).make(interp, name + '.exe_conf')
+    return pex.Configuration(exe_conf, CONF_VALUES.make(interp, name + '.conf_values'),
+                             Iface(MkSettingsHandlerI).make(interp, name + '.mk_setup_settings_handler'))
+
+
+# the entry point of partial execution: a fresh _PartialExecutor (its __init__ is interpreted) and `execute`
+M.contract(P_EX + ':execute',
+           params=dict(configuration=Custom(_mk_configuration), test_case=TEST_CASE), inline=True,
+           ensures={
+               'order: steps run in the documented order (all validation before the sandbox and any main step)':
+                   lambda trace: in_documented_order(steps_of(trace)),
+               'halt: no forward step after one that did not succeed':
+                   lambda trace: halts_at_first_failure(steps_of(trace)),
+               'progress: every step runs unless an earlier one fails': lambda configuration, trace:
+               runs_to_the_end_unless_a_step_fails(steps_of(trace),
+                                                   configuration.exe_conf.exe_atc_and_skip_assertions is not None),
+               'cleanup: exactly once iff the sandbox exists, as the last step, told the phase that ran last':
+                   lambda trace: cleanup_exactly_once_iff_sandbox(steps_of(trace)),
+               'outcome: success iff no step failed, else the earliest failure or the failure of cleanup':
+                   lambda result, trace: outcome_is_earliest_failure_or_cleanup_failure(result, steps_of(trace)),
+               'outcome: has the sandbox iff it was created': lambda result, trace:
+               result.has_sds == sandbox_exists(steps_of(trace)),
+               'outcome: has the outcome of the action to check if it was executed, none if execution was not reached':
+                   lambda result, trace: atc_outcome_iff_executed(result, steps_of(trace)),
+               "outcome: the kind of failure is one of the named step's kinds (FAIL only from assert/main)":
+                   lambda result: failure_is_of_the_kind_of_its_step(result),
+               'outcome: success and assertion failure come with the outcome of the action to check':
+                   lambda result: complete_execution_has_atc_outcome(result),
+               'the phases of the given test case': lambda test_case, trace:
+               all(s[1][1]['phase_contents'] is test_case.cleanup_phase for s in steps_of(trace)
+                   if s[0] is S.CLEANUP__VALIDATE_SYMBOLS),
+           },
+           raises={OSError: {'ensures': lambda trace:
+           in_documented_order(steps_of(trace)) and halts_at_first_failure(steps_of(trace))
+           and steps_of(trace)[-1][0] == SDS and failed(steps_of(trace)[-1])}},
+           raises_only=())
+
+
+@M.check('constants')
+def _constants(ctx):
+    """The "integer values must correspond" comments of the three enums, as finite obligations
+    (read from the imported current tree)."""
+    for m in PartialControlledFailureEnum:
+        ok = any(x.value == m.value for x in ExecutionFailureStatus) and ExecutionFailureStatus(m.value).name == m.name
+        ctx.obligation('PartialControlledFailureEnum.%s -> ExecutionFailureStatus of the same name' % m.name, ok,
+                       'enumeration')
+    for m in pfh.PassOrFailOrHardErrorEnum:
+        if m is pfh.PassOrFailOrHardErrorEnum.PASS:
+            continue
+        ok = any(x.value == m.value for x in PartialControlledFailureEnum) \
+            and PartialControlledFailureEnum(m.value).name == m.name
+        ctx.obligation('PassOrFailOrHardErrorEnum.%s -> PartialControlledFailureEnum of the same name' % m.name, ok,
+                       'enumeration')
+    for m in svh.SuccessOrValidationErrorOrHardErrorEnum:
+        if m is svh.SuccessOrValidationErrorOrHardErrorEnum.SUCCESS:
+            continue
+        ok = any(x.value == m.value for x in ExecutionFailureStatus) and ExecutionFailureStatus(m.value).name == m.name
+        ctx.obligation('SuccessOrValidationErrorOrHardErrorEnum.%s -> ExecutionFailureStatus of the same name'
+                       % m.name, ok, 'enumeration')
+    from exactly_lib.execution.full_execution.result import FullExeResultStatus
+    for m in ExecutionFailureStatus:
+        ok = any(x.value == m.value for x in FullExeResultStatus) and FullExeResultStatus(m.value).name == m.name
+        ctx.obligation('ExecutionFailureStatus.%s -> FullExeResultStatus of the same name' % m.name, ok, 'enumeration')
+    ctx.obligation('the documented sequence has no step twice and ends with assert/main',
+                   len(set(map(str, CANONICAL))) == len(CANONICAL) and CANONICAL[-1] is S.ASSERT__MAIN, 'enumeration')
+    all_steps = [v for k, v in vars(S).items() if isinstance(v, S.PhaseStep)]
+    ctx.obligation('every phase step constant except conf/main and cleanup/main is in the documented sequence',
+                   all(any(v is c for c in CANONICAL) or v in (S.CONFIGURATION__MAIN, S.CLEANUP__MAIN)
+                       for v in all_steps) and len(all_steps) == len(CANONICAL) - 1 + 2, 'enumeration',
+                   detail={'steps': [str(v) for v in all_steps]})
